@@ -180,12 +180,65 @@ def run(ck: Check):
     gennet.check_generator(ck, [(idx, spec, p, case) for idx, spec, p, case, _ in items])
     protocols.conv_protocol(ck, "raw", "")
     protocols.conv_protocol(ck, "walsh", "")
+    predefined_end_to_end(ck)
     ck.extra["programs"] = ck.distribution.get("programs_validated_in_kernel_for_all_inputs", 0) + ck.distribution.get("programs_safe_checked_in_kernel", 0)
     ck.extra["disagreements_checked"] = ck.distribution.get("rows_compared", 0)
     ck.extra["explanation"] = ("programs = emitted translation units parsed, compared syntactically with the proved generator model and checked by the verified validator inside the Coq kernel "
                                "(exhaustively over all Boolean inputs where the budget allows, safe_check otherwise); disagreements_checked = "
                                "rows on which the real library, eval-mode PyTorch and the reference circuit were compared")
     return ck.finish()
+
+
+def predefined_end_to_end(ck):
+    """The library's own architectures (k_num = 1) with RANDOM gates: real library vs eval-mode PyTorch on random rows; in the thorough
+    tier the parsed text is also compared with the generator model in the kernel (C02_emitted_counts then applies to that text)."""
+    from torchlogix import models as M
+    rng = ck.rng
+    todo = [("ClgnCifar10Mini", lambda: M.ClgnCifar10Mini(k_num=1, device="cpu")), ("ClgnMnist", lambda: M.ClgnMnist(k_num=1, device="cpu"))]
+    if ck.tier == "thorough":
+        todo += [("ClgnCifar10Tiny", lambda: M.ClgnCifar10Tiny(k_num=1, device="cpu")),
+                 ("ClgnCifar10", lambda: M.ClgnCifar10(n_bits=1, k_num=1, tau=1.0, device="cpu"))]
+    jobs = []
+    for i, (name, mk) in enumerate(todo):
+        torch.manual_seed(ck.seed + i)
+        model = mk()
+        for m in model.modules():
+            if type(m).__name__ == "LogicDense":
+                nets.set_gates(rng, m, [rng.randrange(16) for _ in range(m.out_dim)], "raw")
+            if type(m).__name__ == "LogicConv2d":
+                nets.set_tree_gates(rng, m, "raw")
+        W = [64, 32, 16, 8][i % 4]
+        case = {"name": name, "W": W, "predefined": True}
+        ck.case(case, nontrivial=True, kind="predefined")
+        try:
+            net = compiled.build(model, W)
+            compiled.compile_net(net, opt=i % 3)
+            x = (np.random.RandomState(ck.seed + i).rand(W + 6, *net.input_shape) > 0.5)
+            got = [[int(v) for v in r] for r in compiled.forward(net, x.tolist())]
+            model.eval()
+            with torch.no_grad():
+                yt = model(torch.tensor(x, dtype=torch.float32))
+            tau = [m for m in model.modules() if type(m).__name__ == "GroupSum"][0].tau
+            exp = (yt.double() * tau).round().int().tolist()
+        except Exception as e:
+            ck.disagree("a predefined architecture cannot be compiled / run", case, observed=repr(e)[:300], signature={"what": "predefined", "name": name})
+            continue
+        ck.count("rows_compared", len(got))
+        if got != exp:
+            bad = next(j for j in range(len(got)) if got[j] != exp[j])
+            ck.disagree("compiled predefined architecture differs from the eval-mode PyTorch model", dict(case, row_index=bad),
+                        expected=exp[bad], observed=got[bad], signature={"what": "predefined", "name": name})
+        if ck.tier == "thorough":
+            try:
+                p = cparse.parse_unit(net.get_c_code(), W)
+                p["sizes"][0], p["sizes"][1] = int(np.prod(net.input_shape)), int(net._get_output_size())
+                txt = gennet.large_text(nets.extract(model), p)
+                if txt:
+                    jobs.append((name, p, txt))
+            except cparse.ParseError as e:
+                ck.broke("correspondence", "parse emitted C", f"{name}: {e}")
+    for (name, p, _), (rc, out, err) in zip(jobs, ck.coq_eval_many("c02large", [j[2] for j in jobs], timeout=7200, workers=4)):
+        gennet.judge_large(ck, name, p, rc, out, err)
 
 
 def replay(ck, path):
